@@ -23,11 +23,11 @@ def slice_triangles_by_plane(
     from ._trimesh_intersections import slice_faces_plane
 
     vg.shape.check(locals(), "vertices", (-1, 3))
-    vg.shape.check(locals(), "faces", (-1, 3))
+    num_faces = vg.shape.check(locals(), "faces", (-1, 3))
     vg.shape.check(locals(), "plane_reference_point", (3,))
     vg.shape.check(locals(), "plane_normal", (3,))
     if faces_to_slice is not None:
-        vg.shape.check(locals(), "faces_to_slice", (-1,))
+        vg.shape.check(locals(), "faces_to_slice", (num_faces,))
         assert faces_to_slice.dtype == bool
 
     result = slice_faces_plane(
